@@ -835,7 +835,7 @@ def check_solve_seq(ctx, cuqi, c, idx):
                         d = np.zeros(2)
                         d[kk] = h
                         fd = (np.asarray(_quiet(lambda: fm.forward(th + d)), float) - np.asarray(_quiet(lambda: fm.forward(th - d)), float)) / (2 * h)
-                        if not _close(fd, J[:, kk], 1e-5):
+                        if not _close(np.reshape(fd, -1), J[:, kk], 1e-5):
                             ctx.mismatch(sig("jacobian_fd"), c, "finite differences of PDEModel.forward disagree with the exact Jacobian of "
                                          "Observe o Solve o Assemble (differentiated recurrence)", J[:, kk], fd)
                             return
